@@ -29,6 +29,18 @@ use patchrun::{doc_delegates, PAct, PCase, POp, FAKE_ID_BASE};
 use serde_json::Value;
 use verif_common::*;
 
+/// Totals over all cases (reported in the evidence notes): entries applied / rejected by the real evaluation.
+static OPS_APPLIED: std::sync::atomic::AtomicU64 = std::sync::atomic::AtomicU64::new(0);
+static OPS_REJECTED: std::sync::atomic::AtomicU64 = std::sync::atomic::AtomicU64::new(0);
+static OPS_TOTAL: std::sync::atomic::AtomicU64 = std::sync::atomic::AtomicU64::new(0);
+
+fn count_ops(total: usize, applied: usize, rejected: usize) {
+    use std::sync::atomic::Ordering::Relaxed;
+    OPS_TOTAL.fetch_add(total as u64, Relaxed);
+    OPS_APPLIED.fetch_add(applied as u64, Relaxed);
+    OPS_REJECTED.fetch_add(rejected as u64, Relaxed);
+}
+
 /// An owned item of a COB state: `path ↦ (owner, core, owners of the containers it lives in)`.
 type Items = BTreeMap<String, (String, String, Vec<(String, String)>)>;
 
@@ -143,6 +155,7 @@ fn run_issue(w: &mut World, input: &str) -> (String, Outcome) {
         Err(e) => return (input.to_string(), Outcome::new(format!("harness-error:{e}")).trivial().tag("harness-error")),
     };
     let text = issuerun::render(&case);
+    count_ops(case.ops.len() - 1, run.steps.iter().filter(|s| s.ok).count(), run.steps.iter().filter(|s| !s.ok).count());
     let mut o = Outcome::new(run.output.clone());
     o.tags = run.tags.clone();
     o.tags.push("issue".into());
@@ -212,6 +225,7 @@ fn run_patch(w: &mut World, input: &str) -> (String, Outcome) {
         Err(e) => return (input.to_string(), Outcome::new(format!("harness-error:{e}")).trivial().tag("harness-error")),
     };
     let text = patchrun::render(&case);
+    count_ops(case.ops.len() - 1, run.steps.iter().filter(|s| s.ok).count(), run.steps.iter().filter(|s| !s.ok).count());
     let mut o = Outcome::new(run.output.clone());
     o.tags = run.tags.clone();
     o.tags.push("patch".into());
@@ -736,6 +750,12 @@ fn main() {
                 world = World::new();
             }
         }
+    }
+    {
+        use std::sync::atomic::Ordering::Relaxed;
+        ctx.note("entries_total_non_root", OPS_TOTAL.load(Relaxed));
+        ctx.note("entries_applied", OPS_APPLIED.load(Relaxed));
+        ctx.note("entries_rejected", OPS_REJECTED.load(Relaxed));
     }
     ctx.finish(
         "whole issue / patch histories on a real repository: 1-2 identity documents (1-3 delegates out of 4 \
